@@ -395,3 +395,32 @@ for _k, (_t, _x) in ROUND3.items():
     PROPS[_k]["text"] = PROPS[_k]["text"] + " Round 3: " + _x
 
 SOURCE_COMMITS += ["16751ae"]  # C15 fix F24: partial clear of a wrapped line
+
+
+# ---- round 4 (third seeding round): deciding methods added per property
+ROUND4 = {
+    "C01": "reaching-definition order of the value look-ahead test, uniqueness test of synthesised names against the format, C07-R2 borrowed",
+    "C02": "control independence of the required-argument scan, None-sentinel form of the mode default in the Command.parse facade",
+    "C03": "reaching definitions of the name at the primary-index test, boolean-marker vs None comparison, recursive base fall-through, leniency pairing (C17-R2 borrowed), registration table through helpers",
+    "C04": "return values of every __exit__, scratch-reset rule for parsers, listener-cache invalidation (C12-R1) and configured-value ownership (C17-R8) borrowed, order of the handler look-up against the handled return",
+    "C05": "mode default under `is None` only, leniency pairing, process-wide container ownership for the parser classes",
+    "C06": "path-restricted upper-bound check of positional list access, control independence of the alias-index loops, recursive base fall-through, dominance-based base gating in the sibling summaries",
+    "C07": "return-type table of the converters (isinstance of exactly the target type), measured-value = stored-value check of the alias classification",
+    "C08": "whitespace predicate must be str.isspace, scratch-reset rule for TokenParser.parse (resets through helpers that read only reset fields), argv aliasing (C05-R2 borrowed)",
+    "C09": "style-set argument on every formatter built by the I/O factory, handler look-up order (C04-R15), lenient-switch order (C13-R11), argv aliasing (C05-R2) and flag forwarding (C10-R2) borrowed",
+    "C10": "bit-independence of the level constants (constant folding), writer ownership of the gate fields incl. constructor re-runs, post-dominance of the facade's delegation, raise-before-write in the gate setters",
+    "C11": "post-dominance of the style registration in add_style, style-set argument on every formatter of the I/O factory, same-engine check of format / remove_format",
+    "C12": "must-assign analysis over the constructor chains of the event classes, override check of the propagation methods, plain-dict store, match-guarded return of get_listener_priority, cache entries never bound to existing lists",
+    "C13": "source of the inherited-options listing, wrap-or-delegate ownership of help components, declared-type check of str.join arguments, freshness of the resolve result after the lenient switch, help-token deletion (C17-R3 borrowed)",
+    "C14": "definitional form of the total width, None-marker sentinel discipline, constructor derives nothing from the style, memoised border styles (C17-R1 borrowed)",
+    "C15": "invalidation of fields computed from the content list, measured = recorded string, same-engine stripping (C11-R10 borrowed)",
+    "C16": "dominance of redraws by the throttle edge or the at-maximum edge, _nomax variant look-up under `not max`, co-assignment of step and percentage",
+    "C17": "effect analysis of the I/O factory on the long-lived configuration, argv aliasing (C05-R2 borrowed)",
+    "C18": "truncate-before-write in the string input stream, ambiguity test on every path to the acceptance, pattern stored as given, max(*seq) behind len > 1",
+    "C19": "join on every normal path of the ending method (transitively), thread start on every path to the with-body, modulo at the use of the spinner index, receiver of the capability questions",
+    "C20": "subject of the ignore-pattern match, str(exception) in simple mode, handler on every path into the tokenizer (call site or inside the highlighter), empty-literal returns of subscripted calls, lossy re-encoding",
+}
+for _k, _t in ROUND4.items():
+    PROPS[_k]["technique"] = PROPS[_k]["technique"] + "; round 4: " + _t
+
+SOURCE_COMMITS += ["7f7c280", "8156858", "3a39c59"]  # F25 ConfigEvent, F26 untokenizable source, F27 help from a fresh lenient parse
